@@ -128,7 +128,8 @@ __CPROVER_ensures(__CPROVER_return_value==HANDLED_TRUE || __CPROVER_return_value
 
 void convert_event_and_execute_entry(type_t st, type_t tgt, stref_t s, event_t evt, fsm_t* fsm)
 __CPROVER_requires(g_phase==PH_BEFORE_ENTRY && !g_exc)                            /*@ob C02,C19.entry-last */
-__CPROVER_requires(st==next_state_type && tgt==T2)                                /*@ob C02,C03.entry-of-the-target-state */
+__CPROVER_requires(st==next_state_type)                                           /*@ob C02,C03.entry-of-the-target-state */
+__CPROVER_requires(tgt==T2)                                                       /*@ob C09,C02,C08.entry-is-told-the-declared-target-type-so-explicit-fork-and-entry-point-targets-are-honoured */
 __CPROVER_requires(fsm->m_states[g_region]==ORACLE_ENTRY)                         /*@ob C19,C03.entry-observes-policy-state */
 __CPROVER_requires(g_act[g_nxt]==0)                                                 /*@ob C03,C02.entry-only-of-an-inactive-state */
 __CPROVER_assigns(g_phase, g_exc, g_act[g_nxt])
